@@ -377,7 +377,7 @@ def install3(R):
     rc.raises = {"AnyError": dict(ensures=["crop_files_unchanged(self.location)"])}
 
     R.add(K + "Crop.reap_combos_to_ds", cls="Crop", result="V", props=["C12", "C09", "C06"],
-          prop_map={"runner_args": ["C04", "C06", "C09"], "labelling_forwarded": ["C06", "C04"], "constants_as_in_a_direct_run": ["C06", "C04"]},
+          prop_map={"runner_args": ["C04", "C06", "C09"], "labelling_forwarded": ["C06", "C04"], "constants_as_in_a_direct_run": ["C06", "C04", "C15"]},
           hooks={"skip_call_pre": ("combo_runner_to_ds",)},
           notes="the labelling preconditions of combo_runner_to_ds (normal-form description) are the caller's: reap_runner passes a Runner's "
                 "stored description with parse=False; with parse=True the inputs go through parse_*",
